@@ -2,9 +2,9 @@
 (* Judge for C11 and C14 over recordings of harness/cmd/lscoredrv.            *)
 EXTENDS LSCore, TraceKit
 
-TAddr == {"A", "B"}
+TAddr == {"A", "B", "C"}
 TRoots == {"-", "A", "R"}
-Universe == {"A", "B", "R"}
+Universe == {"A", "B", "C", "R"}
 
 VARIABLES l, bad, prev, agree
 tvars == <<vars, l, bad, prev, agree>>
@@ -67,6 +67,17 @@ C14(e) ==
            \o Clause("C14:counter_at_least_recomputed_total", e.st.gcsize >= e.st.gcsum)
       ELSE <<>>)
 
+\* clauses of the accounting / collection properties that are visible at this level (multi-address Set calls,
+\* pinning puts under a file context and similar histories are only reachable through the store's own API)
+PinSetT(st) == ToSetT(st.pin)
+C13(e) == IF e.op = "crash" THEN <<>>
+          ELSE Clause("C13:counter_equals_recorded_total",           \* relative: only the step that breaks it
+                      prev.gcsize = prev.gcsum => e.st.gcsize = e.st.gcsum)
+C12(e) == IF e.op # "gc" THEN <<>>
+          ELSE    Clause("C12:gc_keeps_pinned_chunks",
+                         \A a \in Addr : (prev.per[a][4] > 0 /\ prev.per[a][1] # 0) => e.st.per[a][1] = prev.per[a][1])
+               \o Clause("C12:gc_changes_no_pin_count", PinSetT(e.st) = PinSetT(prev))
+
 TInit == /\ l = 1 /\ bad = <<>> /\ prev = [x |-> 0] /\ agree = TRUE
          /\ m = [a \in Addr |-> Absent] /\ pin = [a \in Addr |-> 0] /\ cached = [r \in Roots |-> {}] /\ res = [op |-> "init"]
 
@@ -78,7 +89,7 @@ TStep ==
      THEN /\ m' = [a \in Addr |-> Absent] /\ prev' = e.st /\ agree' = TRUE /\ bad' = bad
           /\ UNCHANGED <<pin, cached>> /\ res' = [op |-> "reset"]
      ELSE LET post == Post(e, m)
-              cs == C11(e, m, post) \o C14(e)
+              cs == C11(e, m, post) \o C14(e) \o C13(e) \o C12(e)
           IN /\ bad' = IF cs = <<>> THEN bad ELSE Append(bad, BadRec(l, e, cs))
              /\ m' = IF e.op = "crash" THEN m ELSE IF cs = <<>> THEN post ELSE ObsM(e.st)   \* resynchronise
              /\ prev' = IF e.op = "crash" THEN prev ELSE e.st
